@@ -23,6 +23,27 @@ Proof.
   intros [] ; vm_compute; do 5 eexists; (split; [reflexivity|]); repeat split; try reflexivity; intros []; reflexivity.
 Qed.
 
-Lemma lowering_rows_are_the_four_kinds :
-  map fst gen_lowering = [1; 0; 2; 3] \/ (forall k, exists r, lowering_row k = Some r) .
-Proof. right. intro k. destruct (lowering_tie k) as (c & p & v & r & s & H & _). eexists. exact H. Qed.
+
+(* ... and this is what the MODEL'S planner step does (not a restatement of its text): at the second visit of a task the
+   operation appended by pstep has the attributes of the translated row of the task's kind, and create_new_version is
+   recorded exactly when the row says so *)
+Lemma lowering_tie_pstep : forall info sr again s i stk s',
+  stack s = i :: stk ->
+  lt_second (nth i (store s) dummy_lt) = true ->
+  pstep info sr again s = Some s' ->
+  let t := lt_task (nth i (store s) dummy_lt) in
+  let k := t_kind (info t) in
+  exists cls par ver rec ser oi,
+    lowering_row k = Some (kind_code k, (cls, par, ver, rec, ser)) /\
+    ops s' = ops s ++ [oi] /\ op_task oi = t /\
+    op_par oi = par && t_par (info t) /\
+    op_sync oi = negb (cls =? 0) /\
+    nv_calls s' = (if ver then nv_calls s ++ [t] else nv_calls s).
+Proof.
+  intros info sr again s i stk s' Es H2 Hs t k. unfold pstep in Hs. rewrite Es in Hs. fold t in Hs.
+  rewrite H2 in Hs. cbn [negb] in Hs. injection Hs as <-. cbn [ops nv_calls].
+  destruct (lowering_tie k) as (cls & par & ver & rec & ser & Hrow & Hsync & Hpar & Hver & _ & _).
+  exists cls, par, ver, rec, ser. eexists. split; [exact Hrow|]. split; [reflexivity|]. cbn [op_task op_par op_sync].
+  split; [reflexivity|]. fold k. split; [apply Hpar|]. split; [exact Hsync|].
+  rewrite Hver. destruct k; reflexivity.
+Qed.
